@@ -1,5 +1,5 @@
 from numpy import exp, sqrt, insert, searchsorted
-from numpy import array, ndarray, linspace, zeros
+from numpy import array, asarray, ndarray, linspace, zeros
 from numpy.random import default_rng
 from scipy.integrate import simpson
 
@@ -109,6 +109,10 @@ def piecewise_linear_sample(
     :param n_samples: \
         The number of samples to draw from the distribution.
     """
+    # (as floats: the sums and differences of neighbouring table values below would
+    # wrap around in an unsigned or narrow integer type)
+    x = asarray(x, dtype=float)
+    probability_density = asarray(probability_density, dtype=float)
     dx = x[1:] - x[:-1]
     if (dx <= 0.0).any():
         raise ValueError(
